@@ -356,7 +356,7 @@ func wildcardOverNonASCII(pattern, auth string) bool {
 func TestC12(t *testing.T) {
 	rec := evid.For("C12")
 	rec.Rule = "rapid draws (Host, Origin, OriginPatterns, InsecureSkipVerify) from an origin attack grammar: 12 host forms (names, IPv4, bracketed IPv6, ports, mixed case) x 26 origin families (very long authorised names and look-alikes of 13..600 bytes with one upper-case letter, several Origin lines of which the first is the one a Go handler sees, absent, same host, case variants, pattern-authorised, other host, userinfo tricks both ways, port mismatch, suffix/prefix/sub-domain look-alikes, host inside path/query/fragment, null, schemeless, opaque, whitespace, garbage, trailing dot, double @, backslash, empty authority) x 5 schemes x pattern sets with literals, * and ? and syntactically invalid or scheme-qualified patterns (which authorise nobody: patterns are matched against the origin's host), optional X-Forwarded-Host-style request headers naming the origin's host (which authorise nothing), or nil options after earlier handshakes of the process ran with InsecureSkipVerify; the pattern lists of all handshakes of the process live in one slice that is edited in place between handshakes. Oracle: independent authority extractor + glob matcher; one-sided security predicate (upgraded => authorised) plus the converse for origins the generator built as RFC 6454 serialisations. Non-trivial: Origin present and textually different from Host. distinct = hash(host, origin, patterns, flag)."
-	rapid.Check(t, func(rt *rapid.T) {
+	checkProp(t, func(rt *rapid.T) {
 		c := genC12(rt)
 		status, hijacked, _ := runC12(c)
 		msg := checkC12(c, status, hijacked)
